@@ -141,6 +141,8 @@ def _fit(model, da, Y=None):
         return xeofs.single.EOFRotator(n_modes=2).fit(xeofs.single.EOF(n_modes=3, solver="full").fit(da, "time"))
     if model == "MCA":
         return xeofs.cross.MCA(n_modes=2, use_pca=False, solver="full").fit(da, Y, "time")
+    if model == "MCA-std":
+        return xeofs.cross.MCA(n_modes=2, use_pca=False, solver="full", standardize=True).fit(da, Y, "time")
     raise KeyError(model)
 
 
@@ -193,7 +195,7 @@ def eval_case(c):
     for s in miss_s:
         X[s] = np.nan
     model = c["model"]
-    cross = model == "MCA"
+    cross = model in ("MCA", "MCA-std")
     Yfull = (da.isel(lon=slice(0, 2)) * 0.5 + 0.3 * rng.standard_normal((nn, 2, 2))).rename({"lat": "lat2", "lon": "lon2"})
     if cross and c.get("samples_y") is None and (c.get("isolated") is not None or c.get("other_mask") is not None):
         Yfull = Yfull.copy()
@@ -249,7 +251,7 @@ def eval_case(c):
             raise
         both = sorted(set(miss_s) | set(c.get("samples_y") or miss_s))
         keep_t = [t for t in range(nn) if t not in both]
-        ref = xeofs.cross.MCA(n_modes=2, use_pca=False, solver="full").fit(da.isel(time=keep_t).stack(space=("lat", "lon")).isel(space=keep_sp).reset_index("space", drop=True).assign_coords(space=np.arange(len(keep_sp))),
+        ref = xeofs.cross.MCA(n_modes=2, use_pca=False, solver="full", standardize=model == "MCA-std").fit(da.isel(time=keep_t).stack(space=("lat", "lon")).isel(space=keep_sp).reset_index("space", drop=True).assign_coords(space=np.arange(len(keep_sp))),
                                                                            Yfull.isel(time=keep_t), "time")
         sv, svr = m.data["singular_values"].values, ref.data["singular_values"].values
         if real.relerr(sv, svr) > 1e-8:
@@ -319,6 +321,8 @@ def bounded_cases(tier, seed):
             cases.append(dict(model="MCA", features=list(f), samples=list(s), keep=True))
     cases.append(dict(model="MCA", features=[], samples=[2], samples_y=[4], keep=True))
     cases.append(dict(model="MCA", features=[], samples=[1, 2], samples_y=[2, 5], keep=True))
+    cases.append(dict(model="MCA", features=[], samples=[3], samples_y=[], keep=True))          # missing in one field only
+    cases.append(dict(model="MCA-std", features=[], samples=[], samples_y=[2, 6], keep=True))
     for sa, sb in (([3], [3]), ([1, 4], [1, 4]), ([3], [5]), ([0, 2], [2, 6]), ([], [4])):
         cases.append(dict(kind="list", model="EOF-list", features=[], samples=sa, samples_b=sb, keep=True))
     for i, c in enumerate(cases):
